@@ -304,7 +304,7 @@ func (p *sparser) mul() SExpr {
 
 func (p *sparser) unary() SExpr {
 	t := p.peek()
-	if t.k == "op" && (t.s == "!" || t.s == "-" || t.s == "^") {
+	if t.k == "op" && (t.s == "!" || t.s == "-" || t.s == "^" || t.s == "*") {
 		p.next()
 		return &SUn{t.s, p.unary()}
 	}
@@ -419,7 +419,7 @@ func (p *sparser) primary() SExpr {
 			}
 			p.expect("}")
 			return &SSet{el}
-		case "[", "*":
+		case "[":
 			// compound type conversion: []T(x), *T(x) -- rare
 			p.p--
 			ty := p.typeExpr()
